@@ -42,7 +42,7 @@ THEOREMS = ["FP.Props.C07.klae_sound", "FP.Props.C07.klae_routes_valid", "FP.Pro
             "FP.Props.C07.klae_optimal", "FP.Props.C07.objective_consistent",
             "FP.Props.C07.objective_check_passes", "FP.Props.C07.reported_objective_at_optimum",
             "FP.Props.C07.objective_regression_example", "FP.Props.C07.every_optimum_consistent",
-            "FP.Props.C07.klaec_cap", "FP.Props.C07.klaec_sound", "FP.Props.C07.klaec_objective",
+            "FP.Props.C07.klaec_cap", "FP.Props.C07.klaec_cap_int", "FP.Props.C07.klaec_sound", "FP.Props.C07.klaec_objective",
             "FP.Props.C07.klaec_mult_bits", "FP.Props.C07.klaec_bits_of_le",
             "FP.Props.C07.klaec_complete_within_caps", "FP.Props.C07.klaec_decoded_within_caps",
             "FP.Props.C07.klaec_opt_within_caps", "FP.Props.C07.klaec_opt_tight",
